@@ -98,6 +98,25 @@ HAND = [
 ANYFAM = [ANY, SLICE(ANY), MAP(STR, ANY), PTR(ANY), ARRAY(1, ANY), STRUCT(F("x", ANY), F("y", INT(8))), MAP(STR, SLICE(ANY)), PTR(PTR(ANY))]
 ANY_UOPTS = [O(), O(ad=True), O(sn=True), O(sn=True, ad=True), O(ru=True, ci=True)]
 
+# the `format` options of byte strings (the encodings of RFC 4648, lists of numbers), of floats
+# (non-finite values) and of slices and maps (how a nil one is written)
+BINFMTS = ["base64", "base64url", "base32", "base32hex", "base16", "hex", "array"]
+FMTFAM = (
+    [STRUCT(F("b", BYTES, fmt=f)) for f in BINFMTS] + [STRUCT(F("a", BARR(2), fmt=f)) for f in ["base32", "hex", "array", "base64url"]]
+    + [STRUCT(F("b", BYTES, fmt="base32", omitempty=True), F("p", PTR(BYTES), fmt="hex"), F("a", BARR(3), fmt="base32hex", omitzero=True)),
+       STRUCT(F("z", BARR(0), fmt="array", omitempty=True), F("n", BYTES, fmt="array", omitempty=True), F("u", BARR(1), fmt="base16")),
+       STRUCT(F("bad", BYTES, fmt="emitnull"), F("ok", BOOL)), STRUCT(F("bad", BARR(1), fmt="nonfinite")), STRUCT(F("bad", STR, fmt="base64")),
+       STRUCT(F("f", FLOAT, fmt="nonfinite"), F("g", FLOAT)), STRUCT(F("f", PTR(FLOAT), fmt="nonfinite", omitzero=True), F("s", FLOAT, fmt="nonfinite", string=True)),
+       STRUCT(F("bad", FLOAT, fmt="emitnull")), STRUCT(F("bad", INT(8), fmt="nonfinite")), STRUCT(F("l", SLICE(FLOAT), fmt="nonfinite")),
+       STRUCT(F("s", SLICE(INT(8)), fmt="emitnull"), F("t", SLICE(INT(8)), fmt="emitempty"), F("u", SLICE(INT(8)))),
+       STRUCT(F("m", MAP(STR, BOOL), fmt="emitnull"), F("n", MAP(STR, BOOL), fmt="emitempty"), F("o", MAP(STR, BOOL))),
+       STRUCT(F("s", SLICE(STR), fmt="emitnull", omitempty=True), F("m", MAP(STR, STR), fmt="emitempty", omitzero=True), F("p", PTR(SLICE(BOOL)), fmt="emitnull")),
+       STRUCT(F("bad", SLICE(BOOL), fmt="array")), STRUCT(F("bad", MAP(STR, BOOL), fmt="base64")), STRUCT(F("bad", ARRAY(1, BOOL), fmt="emitnull")),
+       STRUCT(F("bad", ANY, fmt="emitnull"), F("ok", BOOL)), STRUCT(F("b", SLICE(BYTES), fmt="emitnull"), F("c", MAP(STR, BYTES), fmt="emitempty"))]
+)
+FMT_MOPTS = [O(det=True), O(det=True, nsn=True, nmn=True), O(det=True, sn=True), O(det=True, oz=True)]
+FMT_UOPTS = [O(), O(sn=True)]
+
 DUPFAM = [
     STRUCT(F("a", INT(8)), F("Ab", INT(8), casing=1), fb=INT(8)), STRUCT(F("a", MAP(STR, INT(8))), fb=MAP(STR, INT(8))),
     MAP(STR, INT(8)), MAP(INT(8), INT(8)), MAP(INT(16, False), STR), MAP(STR, MAP(STR, INT(8))), MAP(STR, ANY), ANY,
@@ -145,6 +164,24 @@ def _dec(d):
     return d - 1 if d > 0 else 0
 
 
+def _extra_values(t, f):
+    if t["k"] == "float" and f:
+        return 3
+    if t["k"] == "ptr":
+        return _extra_values(t["e"], f)
+    return 0
+
+
+def _extra_inputs(t, f):
+    if t["k"] in ("bytes", "barr"):
+        return {"base32": 17, "base32hex": 8, "base64": 7, "base64url": 7, "base16": 11, "hex": 11, "array": 8}.get(f, 0)
+    if t["k"] == "float" and f:
+        return 6
+    if t["k"] == "ptr":
+        return _extra_inputs(t["e"], f)
+    return 0
+
+
 def count_values(t, d):
     """|Values(t, d)| of MC_Arshal.tla"""
     k = t["k"]
@@ -176,7 +213,7 @@ def count_values(t, d):
         return 3 if d == 0 else 8
     n = 1
     for f in t["f"]:
-        n *= count_values(f["t"], _dec(d))
+        n *= count_values(f["t"], _dec(d)) + _extra_values(f["t"], f["fmt"])
     if t.get("fb"):
         n *= 2 + count_values(t["fb"][0], 0) * (3 if t["f"] else 1)
     return n
@@ -211,7 +248,7 @@ def count_inputs(t, d):
     if t.get("fb"):
         n += count_inputs(t["fb"][0], _dec(d)) + count_inputs(t["fb"][0], 0) ** 2
     for f in t["f"]:
-        n += count_inputs(f["t"], _dec(d))
+        n += count_inputs(f["t"], _dec(d)) + _extra_inputs(f["t"], f["fmt"])
     if d > 0:
         n += 3
         for f in t["f"]:
